@@ -1260,7 +1260,6 @@ class NodeListComprehension:
         values = getCollectionValue(lst, self.what, self.pos)
         for listValue in values:
             localEnv.put(self.identifier, listValue)
-            value = self.valueExpr.evaluate(localEnv)
             if self.conditionExpr:
                 condition = self.conditionExpr.evaluate(localEnv)
                 if not condition.isBoolean():
@@ -1270,10 +1269,10 @@ class NodeListComprehension:
                         f"but got {condition.type()}",
                         self.pos,
                     )
-                if condition.value:
-                    result.addItem(value)
-            else:
-                result.addItem(value)
+                if not condition.value:
+                    continue
+            value = self.valueExpr.evaluate(localEnv)
+            result.addItem(value)
         return result
 
     def __repr__(self):
@@ -1343,7 +1342,6 @@ class NodeListComprehensionParallel:
             listValue2 = values2[i] if i < len(values2) else None
             localEnv.put(self.identifier1, listValue1)
             localEnv.put(self.identifier2, listValue2)
-            value = self.valueExpr.evaluate(localEnv)
             if self.conditionExpr:
                 condition = self.conditionExpr.evaluate(localEnv)
                 if not condition.isBoolean():
@@ -1353,10 +1351,10 @@ class NodeListComprehensionParallel:
                         f"got {condition.type()}",
                         self.pos,
                     )
-                if condition.value:
-                    result.addItem(value)
-            else:
-                result.addItem(value)
+                if not condition.value:
+                    continue
+            value = self.valueExpr.evaluate(localEnv)
+            result.addItem(value)
         return result
 
     def __repr__(self):
@@ -1433,7 +1431,6 @@ class NodeListComprehensionProduct:
             localEnv.put(self.identifier1, listValue1)
             for listValue2 in values2:
                 localEnv.put(self.identifier2, listValue2)
-                value = self.valueExpr.evaluate(localEnv)
                 if self.conditionExpr:
                     condition = self.conditionExpr.evaluate(localEnv)
                     if not condition.isBoolean():
@@ -1443,10 +1440,10 @@ class NodeListComprehensionProduct:
                             f"but got {condition.type()}",
                             self.pos,
                         )
-                    if condition.value:
-                        result.addItem(value)
-                else:
-                    result.addItem(value)
+                    if not condition.value:
+                        continue
+                value = self.valueExpr.evaluate(localEnv)
+                result.addItem(value)
         return result
 
     def __repr__(self):
@@ -1563,8 +1560,6 @@ class NodeMapComprehension:
         values = getCollectionValue(lst, self.what, self.pos)
         for listValue in values:
             localEnv.put(self.identifier, listValue)
-            key = self.keyExpr.evaluate(localEnv)
-            value = self.valueExpr.evaluate(localEnv)
             if self.conditionExpr:
                 condition = self.conditionExpr.evaluate(localEnv)
                 if not condition.isBoolean():
@@ -1574,10 +1569,11 @@ class NodeMapComprehension:
                         f"but got {condition.type()}",
                         self.pos,
                     )
-                if condition.value:
-                    result.addItem(key, value)
-            else:
-                result.addItem(key, value)
+                if not condition.value:
+                    continue
+            key = self.keyExpr.evaluate(localEnv)
+            value = self.valueExpr.evaluate(localEnv)
+            result.addItem(key, value)
         return result
 
     def __repr__(self):
@@ -1924,7 +1920,6 @@ class NodeSetComprehension:
         values = getCollectionValue(lst, self.what, self.pos)
         for listValue in values:
             localEnv.put(self.identifier, listValue)
-            value = self.valueExpr.evaluate(localEnv)
             if self.conditionExpr:
                 condition = self.conditionExpr.evaluate(localEnv)
                 if not condition.isBoolean():
@@ -1934,10 +1929,10 @@ class NodeSetComprehension:
                         + condition.type(),
                         self.pos,
                     )
-                if condition.value:
-                    result.addItem(value)
-            else:
-                result.addItem(value)
+                if not condition.value:
+                    continue
+            value = self.valueExpr.evaluate(localEnv)
+            result.addItem(value)
         return result
 
     def __repr__(self):
@@ -2000,7 +1995,6 @@ class NodeSetComprehensionParallel:
             localEnv.put(
                 self.identifier2, values2[i] if i < len(values2) else NULL
             )
-            value = self.valueExpr.evaluate(localEnv)
             if self.conditionExpr:
                 condition = self.conditionExpr.evaluate(localEnv)
                 if not condition.isBoolean():
@@ -2010,10 +2004,10 @@ class NodeSetComprehensionParallel:
                         + condition.type(),
                         self.pos,
                     )
-                if condition.value:
-                    result.addItem(value)
-            else:
-                result.addItem(value)
+                if not condition.value:
+                    continue
+            value = self.valueExpr.evaluate(localEnv)
+            result.addItem(value)
         return result
 
     def __repr__(self):
@@ -2084,7 +2078,6 @@ class NodeSetComprehensionProduct:
             localEnv.put(self.identifier1, value1)
             for value2 in values2:
                 localEnv.put(self.identifier2, value2)
-                value = self.valueExpr.evaluate(localEnv)
                 if self.conditionExpr:
                     condition = self.conditionExpr.evaluate(localEnv)
                     if not condition.isBoolean():
@@ -2094,10 +2087,10 @@ class NodeSetComprehensionProduct:
                             + condition.type(),
                             self.pos,
                         )
-                    if condition.value:
-                        result.addItem(value)
-                else:
-                    result.addItem(value)
+                    if not condition.value:
+                        continue
+                value = self.valueExpr.evaluate(localEnv)
+                result.addItem(value)
         return result
 
     def __repr__(self):
